@@ -22,22 +22,30 @@ def sym_mask(tag="mask"):
 
 
 class Emit:
-    """emit(L -> R): the sliced should_construct_face predicate as a function of the plane's labels."""
+    """emit(L -> R): the condition under which VoronoiCell::from_convex_cell constructs the stored face of a clipping plane, as a function of
+    the plane's labels. Taken semantically: the per-plane helper closure (the closure whose body calls VoronoiFace::init) is run, together with
+    the cell-level statements in front of it (tolerant mode), and emit is the path condition under which VoronoiFace::init is reached - however
+    the deciding predicate is written (inline, as a local, or extracted into a function)."""
     def __init__(self):
         self.u = Unit("voronoi/voronoi_cell.rs", "VoronoiCell::from_convex_cell")
         tree = self.u.tree
-        let_hs = extract.find_let(self.u.fn, "half_space")
-        let_sc = extract.find_let(self.u.fn, "should_construct_face")
-        if not (let_hs["sp"][1] <= let_sc["sp"][0]): raise extract.Undecided("lost anchor: half_space before should_construct_face")
-        self.stmts = [let_hs, let_sc]
-        self.sha = extract.sha(extract.text_of(tree, let_hs) + extract.text_of(tree, let_sc))
-        # the predicate must be the only thing deciding construction: `if should_construct_face { maybe_face.get_or_insert(VoronoiFace::init(..)) }`
-        ifs = extract.find_nodes(self.u.fn["body"], lambda n: n.get("k") == "if" and n["c"].get("k") == "path" and n["c"]["segs"] == ["should_construct_face"])
-        if len(ifs) != 1: raise extract.Undecided("lost anchor: `if should_construct_face {..}`")
+        calls_init = lambda n: bool(extract.find_nodes(n, lambda x: x.get("k") == "call" and x["f"].get("k") == "path" and x["f"]["segs"][-2:] == ["VoronoiFace", "init"]))
+        cls = [c for c in extract.find_nodes(self.u.fn["body"], lambda n: n.get("k") == "closure") if calls_init(c["body"])]
+        self.cl, self.loop = None, None
+        if cls:
+            self.cl = cls[0]     # pre-order: the outermost one
+            if len(self.cl["params"]) != 2: raise extract.Undecided("lost anchor: closure |maybe_face, clipping_plane_idx|")
+            holder = self.cl
+        else:
+            # no helper closure: the decision sits directly in the loop over the tetrahedra
+            loops = [l for l in extract.find_nodes(self.u.fn["body"], lambda n: n.get("k") == "for") if calls_init(l["body"])]
+            if not loops or loops[0]["pat"].get("k") != "pident": raise extract.Undecided("lost anchor: neither a per-plane closure nor a tetrahedron loop calls VoronoiFace::init")
+            self.loop = holder = loops[0]
+        self.sha = extract.sha(extract.text_of(tree, holder))
         self.consts = self.u.auto_consts(XF)
-        # statements of the function body in front of the one that holds the predicate (cell-level lets the predicate may read)
-        top = [s_ for s_ in self.u.fn["body"]["stmts"] if s_["sp"][0] <= let_sc["sp"][0] < s_["sp"][1]]
-        if len(top) != 1: raise extract.Undecided("lost anchor: statement holding should_construct_face")
+        # statements of the function body in front of the one that holds the closure / loop (cell-level lets the predicate may read)
+        top = [s_ for s_ in self.u.fn["body"]["stmts"] if s_["sp"][0] <= holder["sp"][0] < s_["sp"][1]]
+        if len(top) != 1: raise extract.Undecided("lost anchor: statement holding the per-plane decision")
         self.prefix = [s_ for s_ in self.u.fn["body"]["stmts"] if s_["sp"][1] <= top[0]["sp"][0]]
 
     def __call__(self, left, right_opt, shift_some, normal, dim, mask_opt, tag):
@@ -47,20 +55,29 @@ class Emit:
         planes = SymArr(lambda i: hs)
         cell = Struct("ConvexCell", {"idx": left, "dimensionality": dim, "clipping_planes": planes})
         ctx = symex.Ctx(); ctx.resolver = self.u.resolver(XF)
-        # cell-level prefix in tolerant mode (anything outside the subset is havoc'd), then the two lets of the predicate
+        reached = []
+        def face_init(interp, env, node, args):
+            reached.append(env.pc)
+            return Struct("VoronoiFace", {})
+        ctx.contracts["VoronoiFace::init"] = face_init
         it = symex.Interp(ctx, self.consts); it.tolerant = True
         it.note_params(self.u.fn)
         env = symex.Env(ctx, {"convex_cell": cell, "faces": symex.Havoc(ctx, "faces"), "mask": mask_opt}, TRUE, "VoronoiCell")
         if self.prefix:
             it.exec_block(env, {"k": "block", "stmts": self.prefix, "sp": [self.prefix[0]["sp"][0], self.prefix[-1]["sp"][1]]})
-        env.vars["clipping_plane_idx"] = k
         env.vars.setdefault("idx", left)
-        it.tolerant = False
-        it.exec_block(env, {"k": "block", "stmts": self.stmts, "sp": [self.stmts[0]["sp"][0], self.stmts[-1]["sp"][1]]})
-        r = env.vars["should_construct_face"]
-        if isinstance(r, symex.Havoc): r = r.coerce("Bool")
-        if not (isinstance(r, tm.T) and r.sort == "Bool"): raise extract.Undecided("should_construct_face is not boolean")
-        if ctx.panics: pass  # mask[..] index panics: allowed (mask shorter than generators is a caller error)
+        if self.cl is not None:
+            it.call_closure(env, symex.Closure(self.cl, env), [symex.Havoc(ctx, "maybe_face"), k])
+        else:
+            tet = Struct("ConvexCellTet", {"plane_idx": k, "vertices": symex.Arr([vec(tag + "_t%d" % q) for q in range(3)])})
+            env.vars[self.loop["pat"]["name"]] = tet
+            it.exec_block(env, self.loop["body"])
+        r = Or(*reached) if reached else FALSE
+        # a skipped statement that contains a call of VoronoiFace::init means the evaluator did not see whether the face is constructed there:
+        # the condition is then unknown on that path (an unconstrained boolean), and refutations count only if they replay
+        calls = extract.find_nodes(self.u.fn["body"], lambda x: x.get("k") == "call" and x["f"].get("k") == "path" and x["f"]["segs"][-2:] == ["VoronoiFace", "init"])
+        if any(lo <= c_["sp"][0] and c_["sp"][1] <= hi for c_ in calls for lo, hi in ctx.skipped):
+            r = Or(r, ctx.fresh("havoc_unseen_face_construction", "Bool"))
         ctx.emit_havoc = has_havoc([r])
         return r, ctx
 
@@ -176,7 +193,7 @@ def emit_obligations(prefix, want=("reciprocal", "partial", "sym")):
     for o in obs:
         if ".emit." in o.name or "kept_faces" in o.name: o.havoc = hv
         if ".sym." in o.name and o.replay is None and not o.expect_sat: o.replay = replay_sym
-    fns = [{"fn": E.u.label + " / cell-level prefix; let half_space; let should_construct_face", "slice_sha": E.sha}]
+    fns = [{"fn": E.u.label + " / cell-level prefix + the per-plane closure, up to the call of VoronoiFace::init", "slice_sha": E.sha}]
     if S: fns.append({"fn": S.u.label + " / match arm `=> continue`", "slice_sha": S.sha})
     return obs, fns
 
